@@ -361,6 +361,91 @@ func c18(r *core.Report) {
 		}
 	}
 
+	// ---- C18-EVICT-SCAN: the victim comes from the first bucket, counted from index 0 (the farthest from the
+	// locus), that holds more than the per-bucket minimum. The search therefore starts at bucket 0 every time:
+	// a search that starts at a remembered or derived index skips farther buckets that have grown since.
+	r.Rule("C18-EVICT-SCAN", "every search for a bucket above its minimum walks the buckets from index 0", 2)
+	{
+		minF := needField(r, "p/kademlia", "Cache", "minPerBucket")
+		bucketsFld := needField(r, "p/kademlia", "Cache", "buckets")
+		n := 0
+		for _, fn := range p.ModFuncs {
+			if fn.Pkg == nil || fn.Pkg.Pkg.Path() != core.ModPath+"/p/kademlia" {
+				continue
+			}
+			for _, in := range core.AllInstrs(fn) {
+				b, ok := in.(*ssa.BinOp)
+				if !ok || (b.Op != token.GTR && b.Op != token.LSS && b.Op != token.GEQ && b.Op != token.LEQ) {
+					continue
+				}
+				isMin := func(v ssa.Value) bool { f, _ := core.FieldRead(v); return f != nil && core.SameField(f, minF) }
+				var lenSide ssa.Value
+				// "len > min" (or "min < len"): this bucket can spare an entry
+				switch {
+				case isMin(b.Y) && (b.Op == token.GTR || b.Op == token.GEQ):
+					lenSide = b.X
+				case isMin(b.X) && (b.Op == token.LSS || b.Op == token.LEQ):
+					lenSide = b.Y
+				default:
+					continue
+				}
+				// the bucket whose length is compared: an element of Cache.buckets; its index
+				var idx ssa.Value
+				ranged := false
+				core.BackSlice(lenSide, func(x ssa.Value) bool {
+					switch y := x.(type) {
+					case *ssa.IndexAddr:
+						if f, _ := core.FieldRead(y.X); f != nil && core.SameField(f, bucketsFld) && idx == nil {
+							idx = y.Index
+						}
+					case *ssa.Index:
+						if f, _ := core.FieldRead(y.X); f != nil && core.SameField(f, bucketsFld) && idx == nil {
+							idx = y.Index
+						}
+					}
+					return idx == nil
+				})
+				if idx == nil {
+					continue
+				}
+				n++
+				r.Analysed(fn)
+				c := fmt.Sprintf("%s bucket search #%d", core.FnName(fn), n)
+				okStart := false
+				why := "the bucket index is not a loop counter"
+				if ph, isPhi := idx.(*ssa.Phi); isPhi {
+					if ph.Comment == "rangeindex" {
+						okStart, ranged = true, true
+					} else {
+						okStart = true
+						for _, e := range ph.Edges {
+							if bo, isB := e.(*ssa.BinOp); isB && bo.X == ssa.Value(ph) && bo.Op == token.ADD {
+								if k, isK := core.ConstInt(bo.Y); isK && k == 1 {
+									continue
+								}
+							}
+							if k, isK := core.ConstInt(e); isK && k == 0 {
+								continue
+							}
+							okStart = false
+							why = "the loop counter starts at " + e.String() + ", not at 0"
+						}
+					}
+				} else if bo, isB := idx.(*ssa.BinOp); isB && bo.Op == token.ADD {
+					// rotated range loops index with rangeindex+1
+					if ph, isPhi := bo.X.(*ssa.Phi); isPhi && ph.Comment == "rangeindex" {
+						okStart, ranged = true, true
+					}
+				}
+				_ = ranged
+				r.Check(okStart, "C18-EVICT-SCAN", c, p.Pos(b.Pos()), "the buckets are walked from index 0 upward", "the search for a bucket that can spare an entry does not start at bucket 0 ("+why+"): a farther bucket that holds more than its minimum is skipped and a closer entry is evicted while the farther one is kept")
+			}
+		}
+		if n < 2 {
+			r.Fail("C18-EVICT-SCAN: found %d comparisons of a bucket's length with minPerBucket, 2 confirmed on the pinned tree (evict, AcceptingPrefixLen)", n)
+		}
+	}
+
 	// ---- C18-EXPIRY-AGREE: Expire opens a bucket on minExpiresAt-vs-now and removes entries on
 	// ExpiresAt-vs-now (Entry.IsExpired). The two comparisons must put the boundary instant on the same side,
 	// or whether an entry whose time is exactly now is removed depends on what else sits in its bucket.
